@@ -1,6 +1,83 @@
-"""C14 — decided on the serial dependency engine; see deps_check.py (shared body) and DESIGN §7."""
+"""C14 — decided on the serial dependency engine; see deps_check.py (shared body) and DESIGN §7.  Plus directed
+scenarios outside the script DSL: redo-ifcreate after `cd`, and redo-always beside a second top-level run."""
 import deps_check
 from c_deps_common import *
+from common import *
+from proj import Project, clean_env
+
+
+def ifcreate_after_cd(viol):
+    """`redo-ifcreate` names paths relative to where the script IS, not where it started: after `cd sub`, declaring an
+    existing sub/present is an error; declaring the absent sub/only_top (./only_top exists) is accepted, and the
+    target is rebuilt when sub/only_top appears — not before."""
+    pr = Project()
+    try:
+        import os as _os
+        _os.makedirs(pr.path("sub"))
+        pr.write("sub/present", "x")
+        pr.write("only_top", "x")
+        pr.write("t.do", "cd sub\nredo-ifcreate present\necho t\n")
+        pr.write("w.do", "echo ran >>w.runs\ncd sub\nredo-ifcreate only_top\necho w\n")
+        problems = []
+        rc, o, e = pr.run(["redo-ifchange", "t"])
+        if rc == 0:
+            problems.append("declaring redo-ifcreate for the existing sub/present (after cd sub) was accepted")
+        rc, o, e = pr.run(["redo-ifchange", "w"])
+        if rc != 0:
+            problems.append("redo-ifcreate of the absent sub/only_top (after cd sub) was refused (exit %d)" % rc)
+        rc, o, e = pr.run(["redo-ifchange", "w"])
+        n1 = len((pr.read("w.runs") or b"").split())
+        pr.write("sub/only_top", "now")
+        rc, o, e = pr.run(["redo-ifchange", "w"])
+        n2 = len((pr.read("w.runs") or b"").split())
+        if n1 != 1:
+            problems.append("w was rebuilt before the watched path appeared (%d runs)" % n1)
+        if n2 != 2:
+            problems.append("w.do was not run again after sub/only_top appeared (%d runs)" % n2)
+        if problems:
+            p = write_replay("C14", "ifcreate-cd", dict(kind="impl-monitor", problems=problems, stderr=e[-800:], scenario="t.do: cd sub; redo-ifcreate present (exists).  w.do: cd sub; redo-ifcreate only_top (absent there, present in the top directory)"))
+            viol.append(Violation("C14", p, "redo-ifcreate after `cd`: " + "; ".join(problems)))
+    finally:
+        pr.destroy()
+
+
+def always_beside_other_run(viol):
+    """Run A (`redo-ifchange P1 P2`, both need the redo-always target T; P1.do first waits for a flag file) is started,
+    run B (`redo-ifchange U`, U another redo-always target) runs from start to finish meanwhile, then A is released:
+    T is built exactly once in A."""
+    import subprocess, time as _t
+    pr = Project()
+    try:
+        pr.write("T.do", "redo-always\necho ran >>T.log\necho T\n")
+        pr.write("U.do", "redo-always\necho U\n")
+        pr.write("P1.do", "while [ ! -e go ]; do sleep 0.05; done\nredo-ifchange T\necho P1\n")
+        pr.write("P2.do", "redo-ifchange T\necho P2\n")
+        a = subprocess.Popen(["redo-ifchange", "P1", "P2"], cwd=pr.root, env=clean_env(), stdout=subprocess.DEVNULL, stderr=subprocess.PIPE, stdin=subprocess.DEVNULL, start_new_session=True)
+        _t.sleep(0.5)
+        rcb, o, e = pr.run(["redo-ifchange", "U"], timeout=30)
+        pr.write("go", "")
+        try:
+            _, erra = a.communicate(timeout=40)
+            rca = a.returncode
+        except subprocess.TimeoutExpired:
+            import signal, os as _os
+            _os.killpg(a.pid, signal.SIGKILL)
+            rca, erra = -999, b""
+        runs = len((pr.read("T.log") or b"").split())
+        if rca != 0 or rcb != 0 or runs != 1:
+            p = write_replay("C14", "always-two-runs", dict(kind="impl-monitor", rc_a=rca, rc_b=rcb, T_runs=runs, stderr=erra.decode("utf-8", "replace")[-800:],
+                                                            scenario="A: redo-ifchange P1 P2 (both redo-ifchange T; T.do: redo-always), B: redo-ifchange U (redo-always) while A waits"))
+            viol.append(Violation("C14", p, "the redo-always target T was built %d time(s) in one top-level run (statuses A=%s B=%s) while another run used redo-always in between" % (runs, rca, rcb)))
+    finally:
+        pr.destroy()
+
 
 def run(ctx):
-    return deps_check.run_property(ctx, "C14", FEATURES["C14"], NCASES["C14"], WANT["C14"], known_matcher=KNOWN.get("C14"))
+    cov = deps_check.run_property(ctx, "C14", FEATURES["C14"], NCASES["C14"], WANT["C14"], known_matcher=KNOWN.get("C14"))
+    viol = ctx.setdefault("violations", [])
+    if not viol and not ctx.get("replay"):
+        ifcreate_after_cd(viol)
+    if not viol and not ctx.get("replay"):
+        always_beside_other_run(viol)
+        cov["directed_scenarios"] = 2
+    return cov
